@@ -319,9 +319,6 @@ def ends_in_continuation(files, rules):
 
 # ---- deviation rules of the known findings (do-while level)
 
-_SP = re.compile(r"\s+")
-
-
 def tokens_glue(text):
     """[(token, glued)] glued = no white space between this token and the previous one."""
     out = []
@@ -708,13 +705,6 @@ def expand_sections(sections):
     return out
 
 
-def expand_one(section):
-    r = expand_sections([section])[0]
-    if isinstance(r, str):
-        return ("err", r)
-    return ("ok", r)
-
-
 _TRIVIAL = None
 
 
@@ -789,7 +779,7 @@ def check_macro_case(d, files):
 
 _A_PAIRS = None
 _A_PATCHSETS = None
-A_PAIRS_PER_BATCH = 6
+A_CASES_PER_BATCH = 360
 
 
 def work_a(item):
@@ -798,18 +788,38 @@ def work_a(item):
     cases = [(items, pl, patch) for items, pl in _A_PAIRS[k][lo:hi] for patch in _A_PATCHSETS[k]]
     plan = []  # per case: files, code, index of R section, index of C section, [(rules, text, index)]
     secs = []
+    memo = {}  # the reference reading of the headers does not depend on the patch file
+
+    def ref_of(c, files, rules):
+        key = (c[0], c[1], rules)
+        if key not in memo:
+            try:
+                memo[key] = ref_macros(files, rules)
+            except core.HarnessError:
+                if not rules:
+                    raise
+                memo[key] = None  # the deviated reading is not a well-formed header
+        m = memo[key]
+        if m is None:
+            return None
+        p = files["patches_macros.h"]
+        return m + "\n" + p + ("" if p.endswith("\n") else "\n") + "\n"
+
     for c in cases:
         files = macro_case_files(*c)
         code = code_patched_text(d, files)
         ri = len(secs)
-        secs.append(ref_patched_text(files))
+        secs.append(ref_of(c, files, ()))
         ci = None
         if code[0] == "ok":
             ci = len(secs)
             secs.append(code[1])
         dv = []
-        for rules in macro_rule_candidates(files):
-            t = dev_text(files, rules)
+        ck = (c[0], c[1], "cand")
+        if ck not in memo:
+            memo[ck] = macro_rule_candidates(files)
+        for rules in memo[ck]:
+            t = ref_of(c, files, rules)
             dv.append((rules, t, len(secs) if t is not None else None))
             if t is not None:
                 secs.append(t)
@@ -1070,8 +1080,7 @@ def bundled_check(_=None):
             same = norm_line_directives(read(os.path.join(d, gen))) == norm_line_directives(read(bp))
             cnt["bundled_%s_reproduced" % gen.replace(".", "_")] = bool(same)
     # reference expansion (clang, cross-checked by gcc line by line)
-    mf = macro_files_of(files)
-    text = R.ref_combined(mf, files["patches_macros.h"], files["shortcode.h"])
+    text = ref_input(files)
     exp_c = [l for l in R.cpp(text, "clang").split("\n") if l.strip()]
     exp_g = [l for l in R.cpp(text, "gcc").split("\n") if l.strip()]
     if len(exp_c) != len(exp_g):
@@ -1089,7 +1098,7 @@ def bundled_check(_=None):
         raise core.HarnessError("clang and gcc disagree on %d bundled lines" % uncertain)
     cnt["oracle_uncertain_lines"] = uncertain
     # macro sets
-    ms_ref = R.macro_set(R.ref_combined(mf, files["patches_macros.h"], ""))
+    ms_ref = R.macro_set(ref_input(files, shortcode=False))
     ms_code = R.macro_set(read(os.path.join(d, "macros_patched.h")))
     cnt["macros_in_patched_set"] = len(ms_ref)
     for k in sorted(set(ms_ref) | set(ms_code)):
@@ -1098,7 +1107,7 @@ def bundled_check(_=None):
     # patch clauses stated directly on the reference side: every patch name is defined by its patch text
     patch_set = R.macro_set(files["patches_macros.h"])
     cnt["patches"] = len(patch_set)
-    orig_set = R.macro_set(R.ref_combined(mf, "", ""))
+    orig_set = R.macro_set(ref_macros(files))
     cnt["patches_replacing"] = sum(1 for k in patch_set if k in orig_set)
     cnt["patches_user_only"] = sum(1 for k in patch_set if k not in orig_set)
     for k, v in patch_set.items():
@@ -1215,8 +1224,8 @@ def run(ctx):
             _A_PAIRS = {k: macro_pairs(k) for k in T["a"]}
             _A_PATCHSETS = {k: patch_sets(mp) for k, mp in T["a"].items()}
             trivial_tokens()
-            items = [(k, lo, hi) for k in sorted(_A_PAIRS) for lo, hi in ranges(len(_A_PAIRS[k]), max(1, 96 // len(_A_PATCHSETS[k])))]
-            res = core.pmap(work_a, items, seed=ctx.seed, chunk=4)
+            items = [(k, lo, hi) for k in sorted(_A_PAIRS) for lo, hi in ranges(len(_A_PAIRS[k]), max(1, A_CASES_PER_BATCH // len(_A_PATCHSETS[k])))]
+            res = core.pmap(work_a, items, seed=ctx.seed, chunk=1)
             cov["macro_set_cases"] = sum(r[0] for r in res)
             cov["macro_set_cases_nontrivial"] = sum(r[1] for r in res)
             for n, nt, bad in res:
